@@ -694,6 +694,7 @@ func runC02EndToEnd(c *core.Ctx) {
 	})
 	// the file store's ids: counter values in any order within one second; every earlier message keeps its bytes (c02_ids.go)
 	c02IdsOnStack(c, st)
+	c02CacheOnStack(c, st)
 }
 
 
